@@ -314,12 +314,64 @@ theorem C03_html_index_rows (es : List HtmlEntry) :
       exact ⟨e, he.1, he.2, rfl⟩
     · simp at hf
 
-/-- The page file at a destination holds the rows of the LAST result written there; with pairwise
-distinct destinations every result's page holds its own rows. -/
-theorem C03_html_pages_partial (es : List HtmlEntry) (hd : (es.map (·.dest)).Nodup) (e : HtmlEntry)
-    (he : e ∈ es) : get? (sitePages es) e.dest = some e.rows := by
+/-- What the output directory holds, for ALL result sets: the page file at a destination holds the
+rows of the LAST entry written there, and there is a page file only where some entry was written. -/
+theorem C03_html_pages_document (es : List HtmlEntry) (d : List Name) :
+    get? (sitePages es) d = (es.reverse.find? (fun x => decide (x.dest = d))).map (·.rows) := by
   unfold sitePages
-  refine (get?_foldl_set (fun x : HtmlEntry => x.dest) (fun x => x.rows) es [] e.dest).trans ?_
+  refine (get?_foldl_set (fun x : HtmlEntry => x.dest) (fun x => x.rows) es [] d).trans ?_
+  cases es.reverse.find? (fun x => decide (x.dest = d)) <;> simp
+
+/-- `add_html_ext` (after the fix b1b2416) appends ".html" to the whole file name, so two rel
+paths made of `Normal` components go to the same page only if they are the same path. -/
+theorem C03_html_dest_injective (rel rel' : Path) (d : List Name) (h : htmlDest rel = some d)
+    (h' : htmlDest rel' = some d) (hn : AllNormal (components rel)) (hn' : AllNormal (components rel')) :
+    components rel = components rel' := htmlDest_injective h h' hn hn'
+
+/-- No page is replaced by another result's PAGE: for result sets whose relative rel paths are
+normalised (only `Normal` components: what path rewriting produces; `.`/`..` are C19's subject)
+and pairwise distinct as paths (`std::path` equality: "a/b" and "a//b" are one path), the last
+write of `gen_html` to the destination of a result is that result's own. No further guard is
+needed since the repair of `add_html_ext` (before it, `a` and `a.` shared `a..html`). -/
+theorem C03_html_page_writes (src : Path → Option Nat) (rs : List Res) (es : List HtmlEntry)
+    (h : entriesOf src rs = some es)
+    (hn : ∀ r ∈ rs, isRelative r.rel = true → AllNormal (components r.rel))
+    (hd : (rs.map fun r => components r.rel).Nodup) (e : HtmlEntry) (he : e ∈ es) :
+    get? (sitePages es) e.dest = some e.rows := by
+  have hL : rs.filterMap (htmlEntry src) = es.map some := mapM_id_some _ es h
+  -- the destinations of the entries are pairwise distinct
+  have hnd : ((rs.filterMap (htmlEntry src)).map (Option.map (·.dest))).Nodup := by
+    refine nodup_filterMap_key (htmlEntry src) (Option.map (·.dest)) (fun r => components r.rel) rs ?_ hd
+    intro r hr r' hr' y y' hy hy' hkey
+    have hy_mem : y ∈ es.map some := by rw [← hL]; exact List.mem_filterMap.mpr ⟨r, hr, hy⟩
+    have hy'_mem : y' ∈ es.map some := by rw [← hL]; exact List.mem_filterMap.mpr ⟨r', hr', hy'⟩
+    obtain ⟨x, _, rfl⟩ := List.mem_map.mp hy_mem
+    obtain ⟨x', _, rfl⟩ := List.mem_map.mp hy'_mem
+    simp only [Option.map_some, Option.some.injEq] at hkey
+    -- unfold the two entries
+    have key : ∀ (r : Res) (x : HtmlEntry), htmlEntry src r = some (some x) →
+        isRelative r.rel = true ∧ htmlDest r.rel = some x.dest := by
+      intro r x hx
+      unfold htmlEntry at hx
+      cases hrel : isRelative r.rel with
+      | false => simp [hrel] at hx
+      | true =>
+        cases hsrc : src r.abs with
+        | none => simp [hrel, hsrc] at hx
+        | some n =>
+          simp only [hrel, hsrc, Bool.not_true, Bool.false_eq_true, if_false, Option.some.injEq] at hx
+          cases hp : UPath.parent r.rel <;> cases hf : fileNameOf r.rel <;> cases hdst : htmlDest r.rel <;>
+            simp only [hp, hf, hdst, Option.some.injEq, reduceCtorEq] at hx
+          subst hx
+          exact ⟨rfl, rfl⟩
+    obtain ⟨hr1, hd1⟩ := key r x hy
+    obtain ⟨hr2, hd2⟩ := key r' x' hy'
+    exact htmlDest_injective hd1 (hkey ▸ hd2) (hn r hr hr1) (hn r' hr' hr2)
+  rw [hL, List.map_map] at hnd
+  have hnd' : (es.map (·.dest)).Nodup := by
+    have : (es.map (·.dest)).map some = es.map (Option.map (·.dest) ∘ some) := by simp [List.map_map]
+    exact nodup_of_map some (this ▸ hnd)
+  rw [C03_html_pages_document]
   cases hf : es.reverse.find? (fun x => decide (x.dest = e.dest)) with
   | none =>
     rw [List.find?_eq_none] at hf
@@ -328,34 +380,90 @@ theorem C03_html_pages_partial (es : List HtmlEntry) (hd : (es.map (·.dest)).No
   | some e' =>
     have hm : e' ∈ es := by simpa using List.mem_of_find?_eq_some hf
     have hdst : e'.dest = e.dest := by simpa using List.find?_some hf
-    have : e' = e := by
-      have key : ∀ (l : List HtmlEntry), (l.map (·.dest)).Nodup → ∀ x ∈ l, ∀ y ∈ l, x.dest = y.dest → x = y := by
-        intro l
-        induction l with
-        | nil => intro _ x hx; simp at hx
-        | cons a l ih =>
-          intro hnd x hx y hy hxy
-          simp only [List.map_cons, List.nodup_cons, List.mem_map, not_exists, not_and] at hnd
-          simp only [List.mem_cons] at hx hy
-          rcases hx with rfl | hx <;> rcases hy with rfl | hy
-          · rfl
-          · exact absurd hxy.symm (hnd.1 y hy)
-          · exact absurd hxy (hnd.1 x hx)
-          · exact ih hnd.2 x hx y hy hxy
-      exact key es hd e' hm e he hdst
-    simp [this]
+    have key : ∀ (l : List HtmlEntry), (l.map (·.dest)).Nodup → ∀ x ∈ l, ∀ y ∈ l, x.dest = y.dest → x = y := by
+      intro l
+      induction l with
+      | nil => intro _ x hx; simp at hx
+      | cons a l ih =>
+        intro hnd x hx y hy hxy
+        simp only [List.map_cons, List.nodup_cons, List.mem_map, not_exists, not_and] at hnd
+        simp only [List.mem_cons] at hx hy
+        rcases hx with rfl | hx <;> rcases hy with rfl | hy
+        · rfl
+        · exact absurd hxy.symm (hnd.1 y hy)
+        · exact absurd hxy (hnd.1 x hx)
+        · exact ih hnd.2 x hx y hy hxy
+    simp [key es hnd' e' hm e he hdst]
 
-/-- … without distinct destinations it is false: the sources `a` and `a.` both go to `a..html`
-(`add_html_ext`), the second page replaces the first. -/
-theorem C03_html_pages_false :
-    ¬ (∀ (es : List HtmlEntry) (e : HtmlEntry), e ∈ es → get? (sitePages es) e.dest = some e.rows) := by
+/-- the full statement about what is on disk when `output_html` returns -/
+def C03_html_pages_stmt : Prop :=
+  ∀ (src : Path → Option Nat) (rs : List Res) (es : List HtmlEntry), entriesOf src rs = some es →
+    (∀ r ∈ rs, isRelative r.rel = true → AllNormal (components r.rel)) →
+    (rs.map fun r => components r.rel).Nodup →
+    ∀ e ∈ es, (HtmlSite.mk (sitePages es) (siteDirs es)).pageAt e.dest = some e.rows
+
+/-- It is false since the fix b1b2416: the page of a source file named `index` (no extension) now
+goes to `<dir>/index.html`, the very file `gen_dir_index` writes the index of `<dir>` to
+afterwards (at the root: the global index): the page is lost and its index row links to the index
+itself. (Before the fix it went to `index..html`, where no row linked.) Witness: `d/index`. -/
+theorem C03_html_pages_false : ¬ C03_html_pages_stmt := by
   intro h
-  have := h [⟨[[97, 46, 46, 104, 116, 109, 108]], [], [97], [1]⟩, ⟨[[97, 46, 46, 104, 116, 109, 108]], [], [97, 46], [2]⟩]
-    ⟨[[97, 46, 46, 104, 116, 109, 108]], [], [97], [1]⟩ (by simp)
+  have := h (fun _ => some 1) [⟨[47, 120], [100, 47, 105, 110, 100, 101, 120], { lines := [(1, 5)] }⟩]
+    [⟨[[100], indexHtml], [100], indexName, [5]⟩] (by decide)
+    (by
+      intro r hr _
+      simp only [List.mem_singleton] at hr; subst hr
+      intro c hc
+      have : components [100, 47, 105, 110, 100, 101, 120] = [.normal [100], .normal indexName] := by decide
+      simp only [this, List.mem_cons, List.not_mem_nil, or_false] at hc
+      rcases hc with rfl | rfl <;> exact ⟨_, rfl⟩)
+    (by simp) ⟨[[100], indexHtml], [100], indexName, [5]⟩ (by simp)
   revert this; decide
 
-example : htmlDest [97] = some [[97, 46, 46, 104, 116, 109, 108]] ∧ htmlDest [97, 46] = some [[97, 46, 46, 104, 116, 109, 108]] ∧
+/-- Under the guard that no source file is named `index`, every result that gets a page finds its
+own rows in the page file at its destination when `output_html` has returned. -/
+theorem C03_html_pages_partial (src : Path → Option Nat) (rs : List Res) (es : List HtmlEntry)
+    (h : entriesOf src rs = some es)
+    (hn : ∀ r ∈ rs, isRelative r.rel = true → AllNormal (components r.rel))
+    (hd : (rs.map fun r => components r.rel).Nodup)
+    (g : ∀ r ∈ rs, fileNameOf r.rel ≠ some indexName) (e : HtmlEntry) (he : e ∈ es) :
+    (HtmlSite.mk (sitePages es) (siteDirs es)).pageAt e.dest = some e.rows := by
+  have hL : rs.filterMap (htmlEntry src) = es.map some := mapM_id_some _ es h
+  have hmem : some e ∈ rs.filterMap (htmlEntry src) := by rw [hL]; exact List.mem_map.mpr ⟨e, he, rfl⟩
+  obtain ⟨r, hr, hre⟩ := List.mem_filterMap.mp hmem
+  -- the entry's destination ends with its file name + ".html", and that name is not `index`
+  have hshape : ∃ ns f, e.dest = ns ++ [f ++ dotHtml] ∧ f ≠ indexName := by
+    unfold htmlEntry at hre
+    cases hrel : isRelative r.rel with
+    | false => simp [hrel] at hre
+    | true =>
+      cases hsrc : src r.abs with
+      | none => simp [hrel, hsrc] at hre
+      | some n =>
+        simp only [hrel, hsrc, Bool.not_true, Bool.false_eq_true, if_false, Option.some.injEq] at hre
+        cases hp : UPath.parent r.rel <;> cases hf : fileNameOf r.rel <;> cases hdst : htmlDest r.rel <;>
+          simp only [hp, hf, hdst, Option.some.injEq, reduceCtorEq] at hre
+        subst hre
+        rename_i par f d
+        obtain ⟨ns, hns⟩ := htmlDest_fileName hdst hf
+        exact ⟨ns, f, hns, fun hfi => g r hr (by rw [hf, hfi])⟩
+  obtain ⟨ns, f, hdst, hf⟩ := hshape
+  unfold HtmlSite.pageAt
+  rw [hdst, not_isIndexFile _ ns f hf, ← hdst]
+  simpa using C03_html_page_writes src rs es h hn hd e he
+
+/-- destinations after the fix: `f` ↦ `f.html`, `.hidden` ↦ `.hidden.html`, `a.` ↦ `a..html`
+(its extension is `Some("")`), `x.html` ↦ `x.html.html` -/
+example : htmlDest [102] = some [[102, 46, 104, 116, 109, 108]] ∧
+    htmlDest [46, 104] = some [[46, 104, 46, 104, 116, 109, 108]] ∧
+    htmlDest [97, 46] = some [[97, 46, 46, 104, 116, 109, 108]] ∧
     htmlDest [120, 47, 102, 46, 99] = some [[120], [102, 46, 99, 46, 104, 116, 109, 108]] := by decide
+/-- "a/b" and "a//b" are one path for `std::path` and one page -/
+example : htmlDest [97, 47, 98] = htmlDest [97, 47, 47, 98] ∧ components [97, 47, 98] = components [97, 47, 47, 98] := by decide
+example : AllNormal (components [120, 47, 102, 46, 99]) := by
+  intro c hc
+  have : components [120, 47, 102, 46, 99] = [.normal [120], .normal [102, 46, 99]] := by decide
+  rw [this] at hc; simp at hc; rcases hc with rfl | rfl <;> exact ⟨_, rfl⟩
 
 def C03_html_global_index_stmt : Prop :=
   ∀ (es : List HtmlEntry), es ≠ [] →
